@@ -9,6 +9,7 @@ import (
 	"io"
 
 	"google.golang.org/grpc"
+	"google.golang.org/grpc/codes"
 
 	"github.com/fullstorydev/grpchan/internal/zzfix"
 	zv "github.com/fullstorydev/grpchan/internal/zzverif"
@@ -128,4 +129,63 @@ func Verif_C01_HTTP() {
 	zv.Assert(got == n, "successful-end-means-every-message-arrived")
 	zv.Reach("done")
 	zv.CheckLeaks()
+}
+
+// Verif_C01_HTTPCut: the response of a server-streaming call (k messages with
+// symbolic payloads and a count, then the trailer, in the real encoding) is cut at
+// any byte offset, ending cleanly or abruptly. Whatever the client has received at
+// any moment is a prefix of what was sent, each message intact (a frame that did
+// not arrive completely is never delivered), and only the complete response ends
+// successfully.
+func Verif_C01_HTTPCut() {
+	k := zv.Choose("messages", zv.Param("cutmsgs", 1)+1)
+	var full bytes.Buffer
+	var payloads [][]byte
+	codec := clientCodec()
+	for i := 0; i < k; i++ {
+		p := verifPayload(fmt.Sprintf("payload#%d", i))
+		payloads = append(payloads, p)
+		if err := writeProtoMessage(&full, codec, &verifMsg{Payload: p, Count: int32(i + 1), Code: 5}, false); err != nil {
+			zv.Fail("encode-data-frame")
+			return
+		}
+	}
+	tr := HttpTrailer{Code: int32(codes.OK), Message: "OK"}
+	if err := writeProtoMessage(&full, codec, &tr, true); err != nil {
+		zv.Fail("encode-trailer-frame")
+		return
+	}
+	enc := full.Bytes()
+	cut := zv.Choose("cut-offset", len(enc)+1) // len(enc) = not cut
+	rb := &verifBody{data: enc[:cut]}
+	if zv.Bool("abrupt-end") {
+		rb.endErr = io.ErrUnexpectedEOF
+	}
+	ch := &Channel{Transport: &verifCanned{status: 200, body: rb}, BaseURL: verifURL("http", "h", "/")}
+	ctx, cancel := context.WithCancel(context.Background())
+	defer cancel()
+	cs, err := ch.NewStream(ctx, zzfix.StreamDescOf("R"), "/a/R")
+	if err != nil {
+		zv.Fail("stream-created")
+		return
+	}
+	cs.CloseSend()
+	got := 0
+	for {
+		m := &verifMsg{}
+		e := cs.RecvMsg(m)
+		if e != nil {
+			if e == io.EOF {
+				zv.Assert(got == k && cut == len(enc), "successful-end-means-every-message-arrived")
+			}
+			break
+		}
+		zv.Assert(got < k, "client-never-receives-more-than-was-sent")
+		if got >= k {
+			return
+		}
+		zv.Assert(bytes.Equal(m.Payload, payloads[got]) && m.Count == int32(got+1) && m.Code == 5, "client-receives-next-message-intact")
+		got++
+	}
+	zv.Reach("cut-done")
 }
